@@ -21,11 +21,13 @@ from lib.vplib import *
 REGISTRY = dict(
     category="proof",
     text="Coq model of the constant evaluator on Int/Nat/Float/Bool values (coq/ConstEval/Model.v: ValueObj::try_*, "
-         "eval_bin, eval_unary_val; i32/u64/i128 arithmetic with debug-panic/release-wrap explicit; floats as spec_float) "
-         "with theorems fold_total (no operand pair panics, either build) and fold_agrees (a folded value is the Python "
-         "value; integer/bool fragment and the float operators that are single IEEE operations), tied to the Rust code by "
-         "correspondence under a debug and a release harness build and an end-to-end subset through the erg CLI; "
-         "Python semantics (coq/ConstEval/Spec.v, extracted) is the judge and is itself checked against CPython.",
+         "eval_bin, eval_unary_val; i32/u64/i128 arithmetic with debug-panic/release-wrap explicit; floats as Coq's IEEE-754 "
+         "specification spec_float) with theorems fold_total/unary_total (no operand panics, either build), fold_agrees_int "
+         "(integer/bool fragment, all operators: a folded value is the Python value), fold_agrees_partial (also + - * / // % with "
+         "a Float operand and Float comparisons; guarded by Known_C04 and By_correspondence_C04), unary_agrees, fold_in_range, "
+         "judge_sound; tied to the Rust code by correspondence under a debug and a release harness build and an end-to-end "
+         "subset through the erg CLI; Python semantics (coq/ConstEval/Spec.v, extracted) is the judge and is itself checked "
+         "against CPython on every run.",
     note="Trusted: Coq kernel, extraction (ExtrOcamlBasic) + generic OCaml driver, harness/consteval, IEEE-754 conformance of "
          "f64 and CPython float (spec_float is their specification). Float `**` (libm pow/powi) is outside the model: known "
          "finding C04-float-pow, class Known_C04. Values other than Int/Nat/Float/Bool (Str, Inf, containers, types) are out of scope.",
@@ -242,8 +244,9 @@ def ev(c):
             if isinstance(a, float) or isinstance(b, float) or b < 0:
                 r = a ** b
                 return enc(r) if not isinstance(r, complex) else [5, "complex"]
-            if abs(a) >= 2 and b * math.log2(abs(a)) >= 130: return [4]
-            return enc(a ** b)
+            if abs(a) >= 2 and b * math.log2(abs(a)) >= 200: return [4]
+            r = a ** b
+            return enc(r) if abs(r) < 2 ** 128 else [4]     # Spec.py_eval_x: XHuge from 2**128 on
         if o in (18, 19): return [3]
         f = [lambda: a + b, lambda: a - b, lambda: a * b, lambda: a / b, lambda: a // b, None, lambda: a % b,
              lambda: a > b, lambda: a >= b, lambda: a < b, lambda: a <= b, lambda: a == b, lambda: a != b,
